@@ -46,6 +46,22 @@ def message_as_raised(message):
     return "" if int(h64(message)[4:8], 16) % 8 == 0 else message
 
 
+_OWN_CTOR = []
+
+
+def _own_constructor_error():
+    if not _OWN_CTOR:
+        from py_gql.exc import ResolverError
+
+        class QuotaExceeded(ResolverError):
+            def __init__(self, limit, message, extensions):
+                super().__init__(message, extensions=extensions)
+                self.limit = limit
+
+        _OWN_CTOR.append(QuotaExceeded)
+    return _OWN_CTOR[0]
+
+
 def salt_of(kwargs):
     """Canonical text of coerced arguments (python names / internal enum values)."""
     def c(v):
@@ -309,6 +325,10 @@ class Binding(object):
                 if getattr(self, "_shared_error", None) is None:
                     self._shared_error = ResolverError("")
                 raise self._shared_error
+            if int(h64(out[1])[8:12], 16) % 3 == 0:
+                # an application error class deriving from the resolver error with a constructor of its own:
+                # copy.copy() / pickling cannot rebuild it from .args
+                raise _own_constructor_error()(42, message_as_raised(out[1]), out[2])
             raise ResolverError(message_as_raised(out[1]), extensions=out[2])
         if out[0] == "crash":
             raise crash(out[1], getattr(self, "crash_class", None))
